@@ -58,7 +58,7 @@ type XResult struct {
 
 func hashKey(k string) [20]byte { return sha1.Sum([]byte(k)) }
 
-func (m *Model[S]) build(hist []int) (S, []string) {
+func (m *Model[S]) Build(hist []int) (S, []string) {
 	s := m.New()
 	obs := make([]string, 0, len(hist)+1)
 	for _, op := range hist {
@@ -90,8 +90,8 @@ func (m *Model[S]) Run(rep *Report) XResult {
 	sharded := m.Shard.N > 1
 	common := sharded // true while at depth <= ShardLevel: work every worker repeats
 	visit := func(hist []int) bool {
-		s, obs := m.build(hist)
-		if m.OnTransition != nil && (!common || m.Shard.I == 0) {
+		s, obs := m.Build(hist)
+		if m.OnTransition != nil && len(hist) > 0 && (!common || m.Shard.I == 0) {
 			m.OnTransition(s, hist, obs, rep)
 		}
 		k := hashKey(m.Name + "\x00" + m.Key(s))
@@ -111,7 +111,7 @@ func (m *Model[S]) Run(rep *Report) XResult {
 			m.Check(s, hist, obs, rep)
 		}
 		if m.Probe != nil {
-			s2, _ := m.build(hist)
+			s2, _ := m.Build(hist)
 			e.probe = hashKey(m.Probe(s2))
 		}
 		seen[k] = e
@@ -152,7 +152,7 @@ func (m *Model[S]) Run(rep *Report) XResult {
 			}
 			var en []int
 			if m.Enabled != nil {
-				s, _ := m.build(hist)
+				s, _ := m.Build(hist)
 				for op := range m.Ops {
 					if m.Enabled(s, op) {
 						en = append(en, op)
